@@ -118,16 +118,6 @@ def _site_kinds(rng, n, mode):
     return ks
 
 
-def _covers_informative(sites, sidx, lo, hi):
-    """does the interval lo..hi (1-based) contain a phased heterozygous call of sample sidx (0-based; None: any sample)?"""
-    for j in range(lo, hi + 1):
-        calls = sites[j - 1]["calls"]
-        for c in (calls if sidx is None else [calls[sidx]]):
-            if c["ps"] > 0 and len(set(c["al"])) > 1:
-                return True
-    return False
-
-
 def _gen_scenarios(ctx, tag, K, P, pats, groups, npats, chunk):
     rng = ctx.rng
     scs = []
